@@ -211,6 +211,11 @@ def _hook(event, args):
             # introspection attributes that are not dunders (gi_frame, f_code...): counted, not judged
             k = f'expr:{event}:{args[1] if len(args) > 1 else "?"}'
             obs.ambient[k] = obs.ambient.get(k, 0) + 1
+        elif inexpr and event == 'import' and args and str(args[0]).startswith('encodings.') \
+                and frame.f_code.co_filename.replace(os.sep, '/').endswith('encodings/__init__.py'):
+            # the interpreter's codec lookup for str.encode / bytes.decode / str(b, enc): it can only name a
+            # submodule of the stdlib package `encodings` (normalised codec name): counted, not judged
+            obs.ambient['expr:import:codec-lookup'] = obs.ambient.get('expr:import:codec-lookup', 0) + 1
         elif inexpr and is_effect(event):
             obs.effects.append((event, _summary(args)))
             if ST.block and not event.startswith(ST.unblocked):
